@@ -227,6 +227,22 @@ impl BLine {
     /// Builds the crate's `Line` through the public constructors and writes it with the crate's
     /// writer. Returns an error text when a constructor rejects the value (a generator defect).
     pub fn write_with_crate(&self, w: &mut DeferredWriter, terminated: bool) -> Result<(), String> {
+        self.with_line(|line| {
+            if terminated {
+                line.write_into(w);
+            } else {
+                line.write_into_unterminated(w);
+            }
+        })
+    }
+
+    /// `Display` of the crate's `Line` built from this value.
+    pub fn display_with_crate(&self) -> Result<String, String> {
+        self.with_line(|line| line.to_string())
+    }
+
+    /// Builds the crate's `Line` through the public constructors and hands it to `f`.
+    pub fn with_line<R>(&self, f: impl FnOnce(&Line) -> R) -> Result<R, String> {
         let nodes: Vec<NodeId>;
         let line = match self {
             BLine::Comment(c) => Line::Comment(BStr::new(c)),
@@ -330,11 +346,6 @@ impl BLine {
                 })
             }
         };
-        if terminated {
-            line.write_into(w);
-        } else {
-            line.write_into_unterminated(w);
-        }
-        Ok(())
+        Ok(f(&line))
     }
 }
